@@ -578,6 +578,62 @@ def check_lzma2_flags(ck, prog):
           key="LZMA2:uncompressed-needs-reset")
 
 
+def check_order(ck, prog):
+    """Two ordering obligations of the LZMA encoders."""
+    ck.rule("C01-ORDER", "position bookkeeping is committed before the encoder can suspend; the history reserve for "
+                         "uncompressed LZMA2 chunks is applied after the LZMA encoder has filled in lz_options")
+    f = prog.fn("lzma_lzma_encode", "lzma_encoder.c")
+    ck.saw_function(f)
+    rcb = [(b, i) for b, i, e in f.iter_elems() for c in ex.calls(e, into_refs=True)
+           if c.get("fn") == "rc_encode" and ex.deref(e) is c or (ex.deref(e).get("k") == "call" and ex.deref(e).get("fn") == "rc_encode")]
+    sym = [b.id for b, i, e in f.iter_elems() for c in ex.calls(e, into_refs=False) if c.get("fn") == "encode_symbol"]
+    if not rcb or not sym:
+        raise AnalysisBroken("lzma_lzma_encode: encode_symbol()/rc_encode() not found")
+
+    def via(bb, ii, ee):
+        return any(ex.show(l) == "coder->uncomp_size" and op == "+=" for (l, r, op, n) in ex.writes(ee))
+    # the rc_encode() call that follows encode_symbol() in the main loop
+    ok = True
+    n_sites = 0
+    for (b, i) in rcb:
+        if b.id not in cfg.reachable(f, sym) or not (set(sym) & cfg.reachable(f, cfg.succs(f, b.id))):
+            continue            # only the rc_encode() inside the symbol loop
+        n_sites += 1
+        same = any(via(b, j, b.elems[j]) for j in range(0, i) if b.elems[j] is not None)
+        if not same:
+            o, _p = cfg.must_pass(f, sym, [b.id], via)
+            ok = ok and o
+    ck.ob("C01-ORDER", "uncomp-size-before-suspend", ok and n_sites > 0, common.where(f),
+          "lzma_lzma_encode: coder->uncomp_size += len happens before rc_encode() can make the function return with the "
+          "symbol already handed to the range coder" if ok and n_sites else
+          "lzma_lzma_encode(): rc_encode() (which returns LZMA_OK to the caller when the output buffer is full) is reached "
+          "after encode_symbol() without `coder->uncomp_size += len`: when the call is resumed the position context "
+          "(pos_state) lags behind the symbols already encoded and the stream cannot be decoded",
+          key="ORDER:uncomp-size-before-suspend")
+    g = prog.fn("lzma2_encoder_init", "lzma2_encoder.c")
+    ck.saw_function(g)
+    stores = [(b, i, n) for b, i, e in g.iter_elems() for (l, r, op, n) in ex.writes(e)
+              if ex.show(l) == "lz_options->before_size"]
+    if not stores:
+        raise AnalysisBroken("lzma2_encoder_init: store to lz_options->before_size not found")
+    okb = True
+    for (b, i, n) in stores:
+        def viac(bb, ii, ee):
+            if bb.id == b.id and ii >= i:
+                return False
+            return any(c.get("fn") == "lzma_lzma_encoder_create" for c in ex.calls(ee, into_refs=False))
+        same = any(viac(b, j, b.elems[j]) for j in range(0, i) if b.elems[j] is not None)
+        if not same:
+            o, _p = cfg.must_pass(g, [g.entry], [b.id], viac)
+            okb = okb and o
+    ck.ob("C01-ORDER", "lzma2-history-reserve", okb, common.where(g, stores[0][2]),
+          "lzma2_encoder_init: lz_options->before_size is raised to LZMA2_CHUNK_MAX - dict_size after "
+          "lzma_lzma_encoder_create() has set it" if okb else
+          "lzma2_encoder_init(): lz_options->before_size is stored before lzma_lzma_encoder_create(), which overwrites it "
+          "(before_size = OPTS): with a small dictionary the window no longer keeps the 64 KiB of history that an "
+          "uncompressed chunk copies from, and the chunk contains wrong bytes", key="ORDER:lzma2-history-reserve")
+
+
 def run(ck):
     ck.explanation = (
         "Path-shape and table clauses of losslessness: the match finders advance the window exactly once per byte "
@@ -595,5 +651,6 @@ def run(ck):
     check_reset(ck, prog)
     check_tab(ck, prog)
     check_lzma2_flags(ck, prog)
+    check_order(ck, prog)
     from . import C03
     C03.check_dict_siblings(ck, common.program(ck, ("liblzma",), files=("/lz/lz_decoder.c", "/lzma/lzma_decoder.c")))
